@@ -592,6 +592,37 @@ func runRequired(c *core.Case) {
 			}
 			c.Count("missing-required.reported", 1)
 		}
+		// another required field present twice (legal: the later occurrence wins) does not make
+		// up for the absent one
+		if len(req) >= 2 {
+			var other ttypes.FieldInfo
+			for _, q := range req {
+				if q.ID != drop.ID {
+					other = q
+				}
+			}
+			dup := cut
+			dup.Fields = append([]tspec.Field(nil), cut.Fields...)
+			for _, fl := range cut.Fields {
+				if fl.ID == other.ID {
+					dup.Fields = append(dup.Fields, fl, fl)
+				}
+			}
+			for _, p := range protocols {
+				b := p.encode(dup)
+				c.Journal("missing-required-with-duplicates|" + p.name)
+				_, o := decode(p, b, t, false)
+				if !checkTotal(c, "missing-required", p, b, t, o) {
+					return
+				}
+				var mf *thrift.MissingField
+				if !errors.As(o.err, &mf) || mf.Field.ID != drop.ID {
+					c.Violation("missing-required-with-duplicates|"+p.name, "not-reported", fmt.Sprintf("required field %d is absent from %x (required field %d occurs three times) but Unmarshal(%s) reports %v", drop.ID, tr(b), other.ID, p.name, o.err), map[string]any{"type": ttypes.TypeString(t), "input_hex": fmt.Sprintf("%x", tr(b)), "dropped": drop.ID})
+					return
+				}
+				c.Count("missing-required.reported-with-duplicates", 1)
+			}
+		}
 	}
 	// histories: the outcome of a decode does not depend on the decodes before it
 	if len(req) >= 2 {
@@ -1105,7 +1136,7 @@ func runReaders(c *core.Case) {
 func init() {
 	core.Register(&core.Monitor{
 		Prop:    "C08",
-		Rule:    "prefixes (struct targets, and every third case a bare list/set/map/string/number/pointer target): every prefix (all of them up to 400 bytes, 200 evenly spaced beyond) of a specification-conformant encoding of a generated value, both protocols: no panic, an error, io.EOF only for the empty input and an error that Is io.ErrUnexpectedEOF otherwise; the whole encoding decodes to the value; with 1-4 bytes appended Unmarshal reports an error; a bare list/set/map is also decoded into a target with other element types (the elements are skipped): accepted in full, unexpected-EOF for every prefix. unknown-fields: fields with undeclared ids (negative, below/above/between the declared ones, at 63/64/65/127/128/129/32767) holding values of every thrift type incl. nested lists, sets, maps and structs are inserted into every struct level of the encoding: the decoded value is unchanged (strict and non-strict). required: the encoding with one required field removed yields *MissingField naming that field; an 8-step history of failing and succeeding decodes of one type gives each step the outcome it has in isolation; one field re-typed (another kind, or the same collection kind with other element types) yields *TypeMismatch from a strict Decoder (fresh, or made strict and then Reset onto the input), also when the field belongs to a struct nested in map values, list elements or other structs; a non-strict one returns no error, leaves that field zero and decodes every other field as before. mutated / random: bit flips, byte substitutions, deletions, huge big-endian and varint sizes spliced into valid encodings, and random bytes biased to header values: no panic; bytes allocated (runtime.MemStats.TotalAlloc around the second and later calls for a type) within 1 MiB (64 KiB of preallocation per nesting level of the decoder, with map overhead) + 4 x len(input) x (largest element size of the target type incl. one bit per id of a struct's id range + 64). size-bombs (also in undeclared fields and undeclared nested structs, with fixed-width elements whose total size overflows 32 bits): list, set, map, string and binary headers announcing 2^16 .. 2^32-1 elements followed by 0-23 bytes, or by slightly more real elements than the decoder preallocates: rejected within the same allocation budget. readers: every Reader method of both protocols on short arbitrary inputs (every fourth one starting with a varint of more than 64 bits, which the compact integer, length, string and binary reads must reject): no panic, <= 256 KiB allocated, no negative sizes, fixed-width reads fail on short input.",
+		Rule:    "prefixes (struct targets, and every third case a bare list/set/map/string/number/pointer target): every prefix (all of them up to 400 bytes, 200 evenly spaced beyond) of a specification-conformant encoding of a generated value, both protocols: no panic, an error, io.EOF only for the empty input and an error that Is io.ErrUnexpectedEOF otherwise; the whole encoding decodes to the value; with 1-4 bytes appended Unmarshal reports an error; a bare list/set/map is also decoded into a target with other element types (the elements are skipped): accepted in full, unexpected-EOF for every prefix. unknown-fields: fields with undeclared ids (negative, below/above/between the declared ones, at 63/64/65/127/128/129/32767) holding values of every thrift type incl. nested lists, sets, maps and structs are inserted into every struct level of the encoding: the decoded value is unchanged (strict and non-strict). required: the encoding with one required field removed yields *MissingField naming that field, also when another required field occurs several times; an 8-step history of failing and succeeding decodes of one type gives each step the outcome it has in isolation; one field re-typed (another kind, or the same collection kind with other element types) yields *TypeMismatch from a strict Decoder (fresh, or made strict and then Reset onto the input), also when the field belongs to a struct nested in map values, list elements or other structs; a non-strict one returns no error, leaves that field zero and decodes every other field as before. mutated / random: bit flips, byte substitutions, deletions, huge big-endian and varint sizes spliced into valid encodings, and random bytes biased to header values: no panic; bytes allocated (runtime.MemStats.TotalAlloc around the second and later calls for a type) within 1 MiB (64 KiB of preallocation per nesting level of the decoder, with map overhead) + 4 x len(input) x (largest element size of the target type incl. one bit per id of a struct's id range + 64). size-bombs (also in undeclared fields and undeclared nested structs, with fixed-width elements whose total size overflows 32 bits): list, set, map, string and binary headers announcing 2^16 .. 2^32-1 elements followed by 0-23 bytes, or by slightly more real elements than the decoder preallocates: rejected within the same allocation budget. readers: every Reader method of both protocols on short arbitrary inputs (every fourth one starting with a varint of more than 64 bits, which the compact integer, length, string and binary reads must reject): no panic, <= 256 KiB allocated, no negative sizes, fixed-width reads fail on short input.",
 		Trusted: []string{"harness/gen/tspec encoders for the valid encodings", "runtime.MemStats.TotalAlloc as the allocation meter (single goroutine)", "errors.Is(err, io.ErrUnexpectedEOF) as the 'unexpected-EOF class'"},
 		Subs: []core.Sub{
 			{Name: "prefixes", N: core.Const(1500, 60000), Run: runPrefixes},
